@@ -321,6 +321,16 @@ def icg_cases(ctx):
             add(n, arbitrary_int_table(rng, n), "arbitrary-int(not SA, v(0)!=0)", "exact", oracle=False)
             sam = games.sam_game(rng, n, rng.choice(["int", "dyadic"]))
             add(n, sam, "sam-" + ("int" if isinstance(sam[-1], int) else "dyadic"), "exact")
+            if n >= 3:
+                # one huge and several small singletons (all values even integers below 2^54, exactly representable; every
+                # subtraction of a singleton is exact): the surplus must come from the table, not from a re-summation
+                big = 2 ** rng.choice([52, 53])
+                singles = [big] + [2 * rng.randint(1, 3) for _ in range(n - 1)]
+                bonus = 2 * rng.randint(500, 1500)
+                hs = [sum(singles[i] for i in range(n) if (c_ >> i) & 1)
+                      + bonus * (games.popcount(c_) * (games.popcount(c_) - 1) // 2) for c_ in range(2 ** n)]
+                if all(int(float(x)) == x for x in hs):
+                    add(n, hs, "huge-spread-int", "exact")
     # float stream: harness generators
     for n in ([3, 4, 5] if q else [2, 3, 4, 5, 6]):
         reps = 6 if q else 80
